@@ -73,7 +73,13 @@ def parse(grid_str, mode=MODE_ZINC, charset='utf-8', single=True):
         if isinstance(grid_data, dict):
             grid_data = [grid_data]
     else:
-        grid_data = GRID_SEP.split(TRAILING_NL_RE.sub('\n', grid_str))
+        # The final newline is optional: drop whatever trailing newlines there
+        # are and terminate the last row ourselves.  Empty text has no grids.
+        grid_str = TRAILING_NL_RE.sub('', grid_str)
+        if grid_str:
+            grid_data = GRID_SEP.split(grid_str + '\n')
+        else:
+            grid_data = []
 
     grids = list(map(_parse, grid_data))
     if single:
